@@ -98,7 +98,7 @@ pub fn run(rec: &mut Recorder, w: &mut World, tier: &str, seed: u64) {
     let mut reqs: Vec<Vec<String>> = vec![];
     for s in subs { for o in ["data1", "data2"] { for a in ["read", "write"] { reqs.push(vec![sval(s), sval(o), sval(a)]); } } }
     let reqf = enc_reqs(&reqs);
-    for _ in 0..n_pat {
+    for pi in 0..n_pat {
         rec.begin();
         m.emit(rec, w);
         let r0 = rec.exec_impl_only(w, "e.new\tmemory\t-\t\t-");
@@ -106,12 +106,21 @@ pub fn run(rec: &mut Recorder, w: &mut World, tier: &str, seed: u64) {
         rec.exec_impl_only(w, "e.rolematch\tkeyMatch\t-");
         let mut before = rec.exec_impl_only(w, &format!("e.enfs\t{}", reqf));
         let mut descr: Vec<String> = vec![];
+        // names that are nodes of the role graph so far (a node stays once a link has mentioned it)
+        let mut nodes: std::collections::BTreeSet<String> = Default::default();
         let mut links: Vec<Vec<String>> = vec![];
         let mut rules: Vec<Vec<String>> = vec![];
         // half of the histories are guided: a pattern name linked to a role that holds a rule, a concrete name the
         // pattern matches made known to the graph, then a link between the pattern and that very name; the rest is random
         let mut script: Vec<(String, &str)> = vec![];
-        if rng.chance(1, 2) {
+        if pi == 0 {
+            // the recorded witness of the known finding K2 (a name becoming a node of its own), so that it is
+            // exercised - and reported as KNOWN-FINDING - on every run
+            let g = |a: &str, c: &str| MOp::Add("g".into(), "g".into(), sv(&[a, c])).line();
+            script = vec![(g("b*", "alice"), "add-link"), (g("*", "guest"), "add-link"), (MOp::Rm("g".into(), "g".into(), sv(&["*", "guest"])).line(), "remove-link"),
+                (g("reader", "guest"), "add-link"), (g("b*", "*"), "add-link"), (MOp::Add("p".into(), "p".into(), sv(&["guest", "data1", "read"])).line(), "add-rule"), (g("guest", "bob"), "add-link")];
+            script.reverse();
+        } else if rng.chance(1, 2) {
             let (pat, name) = *rng.pick(&[("*", "guest"), ("*", "bob"), ("b*", "bob"), ("gu*", "guest"), ("*", "reader")]);
             let role = *rng.pick(&["reader", "guest", "alice"]);
             let r = sv(&[role, *rng.pick(&["data1", "data2"]), *rng.pick(&["read", "write"])]);
@@ -127,7 +136,8 @@ pub fn run(rec: &mut Recorder, w: &mut World, tier: &str, seed: u64) {
             script.reverse();
             rec.count("pattern-roles:guided-history");
         }
-        for _ in 0..3 + rng.below(8) + script.len() {
+        let steps = if pi == 0 { script.len() } else { 3 + rng.below(8) + script.len() };
+        for _ in 0..steps {
             let (line, kind): (String, &str) = if let Some(x) = script.pop() { x } else { match rng.below(8) {
                 0 | 1 => { let r = sv(&[*rng.pick(&["guest", "reader", "alice", "*"]), *rng.pick(&["data1", "data2"]), *rng.pick(&["read", "write"])]); rules.push(r.clone()); (MOp::Add("p".into(), "p".into(), r).line(), "add-rule") }
                 2 => { if rules.is_empty() { continue; } let i = rng.below(rules.len()); (MOp::Rm("p".into(), "p".into(), rules.remove(i)).line(), "remove-rule") }
@@ -135,6 +145,18 @@ pub fn run(rec: &mut Recorder, w: &mut World, tier: &str, seed: u64) {
                 _ => { if links.is_empty() { continue; } let i = rng.below(links.len()); (MOp::Rm("g".into(), "g".into(), links.remove(i)).line(), "remove-link") }
             } };
             let store_was_empty = rec.exec_impl_only(w, "e.get\tp\tp") == "-";
+            // does this link call make a concrete name a node of the graph for the first time, while a pattern that
+            // matches it is already a node?  (requests for that name then start from its own node instead of the pattern's)
+            let mut shadowing = false;
+            if kind.ends_with("link") {
+                let f: Vec<&str> = line.split('\t').collect();
+                for n in dec_list(f[3]) {
+                    let is_new = !nodes.contains(&n);
+                    if is_new && !n.contains('*') && nodes.iter().any(|p| p.contains('*') && casbin::function_map::key_match(&n, p)) { shadowing = true; }
+                    if is_new && n.contains('*') && nodes.iter().any(|c| !c.contains('*') && casbin::function_map::key_match(c, &n)) { shadowing = true; }
+                }
+                for n in dec_list(f[3]) { nodes.insert(n); }
+            }
             rec.exec_impl_only(w, &line);
             descr.push(line.replace('\t', " "));
             let after = rec.exec_impl_only(w, &format!("e.enfs\t{}", reqf));
@@ -143,7 +165,8 @@ pub fn run(rec: &mut Recorder, w: &mut World, tier: &str, seed: u64) {
             rec.count(&format!("pattern-roles:{}", kind));
             if let Some((i, what)) = viol {
                 let store_is_empty = rec.exec_impl_only(w, "e.get\tp\tp") == "-";
-                let sig = if (store_was_empty && kind == "add-rule") || (store_is_empty && kind == "remove-rule") { "empty-store-grant" } else { "not-monotone-pattern-roles" };
+                let sig = if (store_was_empty && kind == "add-rule") || (store_is_empty && kind == "remove-rule") { "empty-store-grant" }
+                          else if shadowing { "pattern-roles-new-node-shadows-pattern" } else { "not-monotone-pattern-roles" };
                 rec.fail(sig, format!("[rbac allow-override, role matching fn keyMatch] {}: request {:?} went {} -> {} after {}", what, reqs[i], &before[i..i + 1], &after[i..i + 1], descr.join(" ; ")));
             }
             if after.contains('t') { rec.count("pattern-roles:state-with-grants"); }
